@@ -1,4 +1,7 @@
+#[cfg(not(feature = "verif"))]
 use std::sync::RwLock;
+#[cfg(feature = "verif")]
+use crate::verif_hooks::RwLock;
 
 use crate::{util, Modulus};
 
